@@ -119,6 +119,7 @@ def gen_project(seed, tag):
                     out.append(f"@{a}_{tag}")
             callee = rng.choice(mlist) if mlist and rng.random() < 0.4 else None
             idx = len(methods)
+            nested = None
             if lang == "python":
                 out.append(f"def {nm}(tsrc):")
                 line = len(out)
@@ -126,6 +127,15 @@ def gen_project(seed, tag):
                 sink = len(out)
                 if callee is not None:
                     out.append(f"    r = {methods[callee]['name']}({rng.randint(1, 9)})")
+                if rng.random() < 0.15:
+                    # a nested function, never called: a method declaration like any other for name-based rules
+                    free = [s_ for s_ in shared if s_ not in names]      # never the name of a function of this file
+                    nn = rng.choice(free) if free and rng.random() < 0.4 else fresh("inner")
+                    out.append(f"    def {nn}(tsrc):")
+                    nested = {"file": rel, "lang": lang, "name": nn, "line": len(out), "sink_line": len(out) + 1, "param_line": len(out),
+                              "attrs": [], "cls": None, "calls": [], "role": "nested-function"}
+                    out.append("        tsnk(tsrc)")
+                    out.append("        return 0")
                 out.append(f"    return {j + 1}")
             else:
                 out.append(f"function {nm}(tsrc) {{")
@@ -140,6 +150,8 @@ def gen_project(seed, tag):
                             "attrs": [f"{a}_{tag}" for a in attrs], "cls": None, "calls": [callee] if callee is not None else [],
                             "role": "function"})
             mlist.append(idx)
+            if nested is not None:
+                methods.append(nested)
         # a class with one or two methods (never called: reachable only when selected)
         if rng.random() < 0.6:
             cname = fresh("Cls")
@@ -147,8 +159,11 @@ def gen_project(seed, tag):
                 out.append(f"class {cname}:")
             else:
                 out.append(f"class {cname} {{")
+            cnames = []
             for _ in range(rng.randint(1, 2)):
-                nm = rng.choice(shared) if rng.random() < 0.4 else fresh("meth")
+                free = [s_ for s_ in shared if s_ not in cnames]
+                nm = rng.choice(free) if free and rng.random() < 0.4 else fresh("meth")
+                cnames.append(nm)
                 if lang == "python":
                     out.append(f"    def {nm}(self, tsrc):")
                     line = len(out)
@@ -514,23 +529,37 @@ def analyse(job):
             res["fails"].append((f"{cls}:selected-entry-not-analysed[{d['role']}]",
                                  f"{describe(gid)} was taken as a start but its own frame is {fr}", case))
     # ---- (4) flows ------------------------------------------------------------------------------------------------------------
-    reach = set()
-    work = [d["idx"] for d in expected.values() if d["idx"] is not None]
-    for d in expected.values():
-        if d["role"] == "unit-init":
-            work += project["unit_init"][d["file"]]["calls"]
-    while work:
-        i = work.pop()
-        if i in reach:
-            continue
-        reach.add(i)
-        work += project["methods"][i]["calls"]
+    def closure(gids):
+        """methods of the generated project reachable from the given start methods (GIR ids)"""
+        out, work = set(), []
+        for g in gids:
+            if g in gid_method:
+                work.append(gid_method[g])
+            elif g in gid_unit_init:
+                work += project["unit_init"][gid_unit_init[g]]["calls"]
+        while work:
+            i = work.pop()
+            if i in out:
+                continue
+            out.add(i)
+            work += project["methods"][i]["calls"]
+        return out
+    gid_method = {g: i for i, g in method_gid.items() if g is not None}
+    gid_unit_init = {}
+    for u in units:
+        uid_ = gi.unit_for(os.path.join(root, u["rel"]))
+        if uid_ in gi.unit_init:
+            gid_unit_init[gi.unit_init[uid_]] = u["rel"]
+    reach = closure(expected)
+    # the flow clause is judged against what P3 really started from, so that a wrong start set (reported above) is not reported a
+    # second time as missing / surplus flows
+    reach_started = closure(started)
     # validate the Python part of the reachability against CPython
     dyn_err = validate_reach_python(project, root, expected, reach)
     if dyn_err:
         res["harness"].append(dyn_err)
     exp_flows = {}
-    for i in reach:
+    for i in reach_started:
         m = project["methods"][i]
         if m["sink_line"] is not None:
             exp_flows[(m["file"], m["param_line"], m["sink_line"])] = i
@@ -548,21 +577,21 @@ def analyse(job):
                 key = (key[0] + "<-" + sp, key[1], key[2])
             obs.add(key)
     res["flows_expected"], res["flows_observed"] = len(exp_flows), len(obs)
-    entry_idx = {d["idx"] for d in expected.values() if d["idx"] is not None}
+    entry_idx = {gid_method[g] for g in started if g in gid_method}
     for k in sorted(set(exp_flows) - obs):
         i = exp_flows[k]
         m = project["methods"][i]
         where = "selected-entry" if i in entry_idx else "callee-of-selected-entry"
         res["fails"].append((f"{cls}:flow-missing-in-{where}[{m['lang']}:{m['role']}]",
-                             f"{m['file']}: parameter tsrc of {m['name']} (line {k[1]}) -> tsnk (line {k[2]}) is reachable from a selected entry "
+                             f"{m['file']}: parameter tsrc of {m['name']} (line {k[1]}) -> tsnk (line {k[2]}) is reachable from an entry P3 started from "
                              f"but taint_data_flow.json has no such flow (it has {len(obs)})", case))
     for k in sorted(obs - set(exp_flows)):
         i = all_flows.get(k)
         what = "code-reachable-from-no-entry" if i is not None else "no-embedded-flow"
         m = project["methods"][i] if i is not None else {"lang": "?", "role": "?", "name": "?"}
         res["fails"].append((f"{cls}:flow-reported-in-{what}[{m['lang']}:{m['role']}]",
-                             f"taint_data_flow.json reports {k} ({m['name']}) although no selected entry reaches that code; selected: "
-                             f"{sorted(describe(g) for g in expected)[:8]}", case))
+                             f"taint_data_flow.json reports {k} ({m['name']}) although no entry P3 started from reaches that code; started: "
+                             f"{sorted(describe(g) for g in set(started))[:8]}", case))
     return res
 
 
@@ -586,7 +615,7 @@ def validate_reach_python(project, root, expected, reach):
                     entered.add(i)
     sys.path.insert(0, root)
     sel_ui = {d["file"] for d in expected.values() if d["role"] == "unit-init" and d["lang"] == "python"}
-    sel_idx = [d["idx"] for d in expected.values() if d["idx"] is not None and d["lang"] == "python"]
+    sel_idx = [d["idx"] for d in expected.values() if d["idx"] is not None and d["lang"] == "python" and d["role"] != "nested-function"]
     err = None
     sys.setprofile(prof)
     try:
@@ -611,8 +640,8 @@ def validate_reach_python(project, root, expected, reach):
         return err
     static_py = {i for i in reach if project["methods"][i]["lang"] == "python"}
     dyn = {i for i in entered if project["methods"][i]["role"] != "decorator"}
-    # decorators run at import time whether or not anything is selected; they carry no flow
-    if dyn != {i for i in static_py if project["methods"][i]["role"] != "decorator"}:
+    # decorators run at import time whether or not anything is selected; they carry no flow. Nested functions are never called.
+    if dyn != {i for i in static_py if project["methods"][i]["role"] not in ("decorator", "nested-function")}:
         return f"reachability oracles disagree: CPython entered {sorted(dyn)}, generator closure {sorted(static_py)}"
     return None
 
